@@ -79,7 +79,7 @@ var cfgs = map[string]*propCfg{
 		Assumptions: []string{"input space 'all byte strings' is not claimed: only alterations of valid encodings (the property's own fault vocabulary); out-of-memory is not in the property statement: 2 GiB declared lengths are injected on one worker only"}},
 	"C03": {Profile: "client", QuickCases: 4800, ThoroughCases: 150000, QuickSecs: 120, ThoroughSecs: 1800, Level: "exploration",
 		Rule: "case = 1-40 generated version-valid frames of every message kind (all versions, body compression none/LZ4/Snappy, every header-flag combination incl. tracing requested on requests, up to 300 KiB) encoded back-to-back by a writer task straight onto a simulated connection with drawn capacity (1 B..1 MiB back-pressure), latency and read chunking, and decoded by a reader task with DecodeFrame, DecodeRawFrame+Convert or DecodeHeader+DecodeBody until EOF; the decoder's source is drawn: the connection, a *bytes.Buffer or *bytes.Reader holding the whole stream, a bufio.Reader over the connection, or one *bytes.Buffer written and read in turns; in a third of the cases the writer also attempts unencodable frames (to a scratch destination) between the valid ones. Oracles: wire bytes per frame = header + BodyLength left in the frame = length in the header on the wire; an independent splitter by declared lengths (refwire) finds exactly the encoder's frames; decoded sequence equals sent sequence; the reader has consumed exactly up to each frame boundary; nobody waits for bytes that never come; EncodedLength of each message equals the bytes its encoder writes. distinct = distinct event-log fingerprints; non-trivial = at least two frames decoded",
-		Assumptions: []string{"the per-notation LengthOf*/Write* clause over whole value domains is pure and is covered only as far as generated frames exercise the notations"}},
+		Assumptions: []string{"the per-notation LengthOf*/Write*/Read* clause is a pure function of its input: it is covered by a direct sweep (scenario \"notations\", every 64th case: all vint magnitude classes 2^k-1, 2^k, 2^k+1 of both signs, lengths around every power of two up to 65535 for the length-prefixed notations, drawn collections, both address families; counted under probes.notation_triples_checked), which is a supplement without any scheduling or fault in it, and otherwise as far as generated frames exercise the notations"}},
 	"C05": {Profile: "client", QuickCases: 1920, ThoroughCases: 100000, QuickSecs: 120, ThoroughSecs: 1800, Level: "exploration",
 		Rule: "case = (1) writer -> link A -> proxy task -> link B -> reader with 1-24 generated frames (versions, compressions); the proxy forwards each frame with a drawn partial operation (DecodeRawFrame>EncodeRawFrame, DecodeHeader+DecodeRawBody, raw>frame>raw conversion, DecodeHeader+DecodeBody>EncodeBody+EncodeHeader, DecodeFrame>EncodeFrame, DecodeHeader+DiscardBody) from the non-seekable link or from a seekable buffer (bodies up to 250 KB on links that are not tiny); oracles: exact consumption after every operation, both decoding routes agree on the tapped bytes, reader receives exactly the forwarded frames equal to what was written; (2) re-encode clause: valid and mutated (bit flips, overwritten 2/4-byte fields) encodings that still decode are re-encoded and must decode to an equal frame. distinct = distinct event-log fingerprints; non-trivial = at least one frame forwarded / decoded"},
 	"C18": {Profile: "codecs", QuickCases: 9600, ThoroughCases: 120000, QuickSecs: 120, ThoroughSecs: 1800, Level: "exploration",
